@@ -22,7 +22,9 @@ def make_lattice():
 
     def mk(name, bases):
         cls = type(name, bases, {})
-        cls.__module__ = mod
+        # the roots A and E live in another module than the classes derived from them (a library's base class, an application's subclasses):
+        # a by-name registration for `lib.A` must reach D, whose own module and whose direct bases' module is the application's
+        cls.__module__ = mod + '_lib' if name in ('A', 'E') else mod
         # B and M are nested classes (their qualified name has two parts, `Outer.B`): by-name registrations use the qualified name
         cls.__qualname__ = ('Outer.' + name) if name in ('B', 'M') else name
         return cls
